@@ -158,7 +158,20 @@ Proof.
     rewrite (ck_rc D K st T Hok Hsym Hpal) in H; auto. now apply extend_wf.
 Qed.
 
-(* ---- the steps inside a node are merges, in the frame of the node ---- *)
+End Sym.
+
+(* ---- the steps inside a node are merges, in the frame of the node: for EVERY table meeting C01's hypotheses ---- *)
+Section Merge.
+Variable D : Type.
+Variable K : nat.
+Variable st : bool.
+Hypothesis HK : 1 <= K.
+Variable T : table D.
+Hypothesis Hok : tbl_ok D K st T.
+Hypothesis Hsym : exts_sym D st T.
+Local Notation oexts := (oexts D st T).
+Local Notation ck := (canon_k st).
+Local Notation key_facts := (key_facts D K st HK T Hok).
 Variable join : D -> D -> bool.
 Hypothesis join_sym : forall a b, join a b = join b a.
 Local Notation knext := (knext D join st T).
@@ -253,4 +266,4 @@ Proof.
   destruct (struct_chains D join st T _ _ (seq_NoDup _ _) _ _ _ Hin) as (HcL & HcR & _).
   rewrite F1. now apply node_wins_merge.
 Qed.
-End Sym.
+End Merge.
